@@ -15,11 +15,29 @@ def build_cases(ctx, reg):
     cases += iosuite.maps_family(g)
     cases += iosuite.times_family(g)
     cases += iosuite.probe_family(g)
+    cases += iosuite.slices2d_family(g)
+    cases += iosuite.sequences_family(g, 40 if quick else 600)
     cases += iosuite.graphs_family(g, 6 if quick else 60)
     cases += iosuite.registered(g, reg, 15 if quick else 200)
     # cycles and error values are C02's domain (C01: values of the supported types, pointers to any depth)
     cases = [c for c in cases if not any(x in c.get("tag", "") for x in (":cyc", "selfloop", "tree-self", "cycle", "probe:error", "probefield:error"))]
     return cases
+
+
+def float32_sweep(ctx):
+    """float32 has only 2^32 values: the thorough tier round-trips ALL of them through the real
+    Marshal/Unmarshal (top-level field, pointer field), the quick tier a strided sample."""
+    stride = 1 if ctx.tier == "thorough" else 65537
+    rc, obs, err = hv.run_harness("io", [{"id": 1, "sweep": {"from": 0, "to": 2**32, "stride": stride}}], timeout=3600)
+    sw = obs[0].get("sweep") if obs else None
+    if not sw:
+        ctx.report("c01:float32-sweep-crashed", "the float32 sweep executor died: " + err[-300:], {"failing_input": True})
+        return
+    ctx.note("float32_sweep", {"values": sw["count"], "stride": stride, "mismatches": sw["nbad"], "exhaustive": stride == 1})
+    ctx.cov["evaluations"] += sw["count"]
+    if sw["nbad"]:
+        ctx.report("c01:float32-roundtrip-mismatch", "float32 values do not round-trip: %s (%d of %d)" % (sw["bad"][:3], sw["nbad"], sw["count"]),
+                   {"case": {"sweep_bad": sw["bad"]}, "failing_input": True})
 
 
 def run(ctx):
@@ -34,6 +52,7 @@ def run(ctx):
     cases = build_cases(ctx, reg)
     recs, crashes = iorun.run_cases(ctx, cases)
     ioeval.run_property(ctx, recs, crashes, ioeval.c01, "C01")
+    float32_sweep(ctx)
     ctx.note("rule", "type-exhaustive scalar matrix (17 kinds x boundary values x 10 container positions), string shapes x positions, "
              "all specialised map key/value pairs, times, reference probes for every referable construct, pointer graphs, random values "
              "of the registered struct types; x {simple, reference} mode; non-trivial = more than 3 output bytes; distinct by (mode,type,value)")
